@@ -7,7 +7,7 @@
 //	C   the same streams again (a second, independent execution)                       -> oracle (2), (3)
 //	D   every party's stream replaced                                                   -> oracle (4)
 //	B_i only party i's stream replaced (two sessions)                                   -> oracle (1), (4)
-//	E_i,j party i's source fails at its j-th Read call (once)                           -> must fail, never succeed
+//	E_i,j party i's source fails at its j-th Read call (once; j = every call for short streams, else {0,1,mid,last-1,last} and the calls around every round boundary)                           -> must fail, never succeed
 //	Z_i party i's source delivers zeros (bounded)                                       -> fail, or reproducible
 //	S_i party i's source delivers the same bytes in short reads                         -> identical messages
 //
@@ -32,14 +32,16 @@ func TestMain(m *testing.M) { engine.Main(m, "C07", "exploration") }
 
 type stat struct {
 	calls, bytes, atFirst, failed int64
+	marks                         []int64 // Read-call indices (relative to this session) at which a message left
 }
 
 // session runs one session of k with the given readers and returns the outcome plus per-party consumption of THIS session.
 func session1(k *kase, ks int64, sess int, taps map[ID]*tap) (*outcome, map[ID]stat) {
 	before := map[ID]stat{}
 	for id, t := range taps {
-		before[id] = stat{t.Calls, t.Bytes, 0, t.failed}
+		before[id] = stat{calls: t.Calls, bytes: t.Bytes, failed: t.failed}
 		t.atFirstSend = -1
+		t.marks = nil
 	}
 	o := k.run(zeroChooser{}, ks, sess, taps)
 	if o.harnessErr != "" {
@@ -51,7 +53,11 @@ func session1(k *kase, ks int64, sess int, taps map[ID]*tap) (*outcome, map[ID]s
 		if t.atFirstSend >= 0 {
 			af = t.atFirstSend - before[id].bytes
 		}
-		st[id] = stat{t.Calls - before[id].calls, t.Bytes - before[id].bytes, af, t.failed - before[id].failed}
+		var marks []int64
+		for _, m := range t.marks {
+			marks = append(marks, m-before[id].calls)
+		}
+		st[id] = stat{t.Calls - before[id].calls, t.Bytes - before[id].bytes, af, t.failed - before[id].failed, marks}
 		t.session++
 	}
 	return o, st
@@ -476,7 +482,7 @@ func baseOnly(cid string) string {
 }
 
 // errIndices: the Read-call indices at which the source fails (one index per execution).
-func errIndices(calls int64, heavy bool) []int64 {
+func errIndices(calls int64, heavy bool, marks []int64) []int64 {
 	if calls <= 0 {
 		return nil
 	}
@@ -488,6 +494,14 @@ func errIndices(calls int64, heavy bool) []int64 {
 		return out
 	}
 	set := map[int64]bool{0: true, 1: true, calls / 2: true, calls - 2: true, calls - 1: true}
+	// round boundaries: the last draw before a message of the party left and the first two draws after it
+	for _, m := range marks {
+		for _, j := range []int64{m - 1, m, m + 1} {
+			if j >= 0 && j < calls {
+				set[j] = true
+			}
+		}
+	}
 	if engine.Thorough() && !heavy {
 		// long streams (base OT, OT-based multipliers: hundreds to thousands of calls): first 32, last 32, 64 evenly spaced
 		for j := int64(0); j < 32; j++ {
@@ -510,7 +524,7 @@ func errIndices(calls int64, heavy bool) []int64 {
 func leafE(x *engine.X, k *kase, seed int64, A *run2, i ID) {
 	fam := family(k)
 	calls := A.st[0][i].calls
-	idx := errIndices(calls, k.heavy)
+	idx := errIndices(calls, k.heavy, A.st[0][i].marks)
 	if len(idx) == 0 {
 		x.Trivial()
 		return
